@@ -229,8 +229,8 @@ func VerifyRangeProof(root, first *felt.Felt, keys, values []*felt.Felt, proof *
 
 	// Ensure all keys are monotonically increasing and values contain no deletions
 	for i := range keys {
-		if i < len(keys)-1 && keys[i].Cmp(keys[i+1]) > 0 {
-			return false, errors.New("keys are not monotonic increasing")
+		if i < len(keys)-1 && keys[i].Cmp(keys[i+1]) >= 0 {
+			return false, errors.New("keys are not strictly increasing")
 		}
 
 		if values[i] == nil || values[i].Equal(&felt.Zero) {
